@@ -121,6 +121,10 @@ func (P) Gen(rng *sim.Rng, tier string) *harness.Case {
 			default:
 				d = rng.U64Range(0, 2*L)
 			}
+			if rng.Chance(0.04) {
+				// a request that stays in flight for a minute and more (beyond the statistic's maximum response time)
+				d = []uint64{59999, 60000, 60001, 61000, 125000}[rng.Intn(5)]
+			}
 			now += d
 			ops = append(ops, harness.Op{K: "tick", N: d})
 		}
